@@ -70,6 +70,14 @@ Theorem C11_uneven_vectors_refused : forall st v w,
   snd (get_shape st) = Err EInvalidStack.
 Proof. exact C11_vectors_lemma. Qed.
 
+(** the number of volumes is not a multiple of the number of vector values (even when the file count is) *)
+Theorem C11_volumes_not_factoring_refused : forall st,
+  reachable st -> well_typed st ->
+  (length (files st) / length (dedup qc_eqb (map f_pos (files st))))
+    mod length (dedup oq_eqb (map (base_vec (cfg_vec st)) (files st))) <> 0 ->
+  snd (get_shape st) = Err EInvalidStack.
+Proof. exact C11_volumes_lemma. Qed.
+
 (** a complete regular grid is never rejected, by any of the queries *)
 Theorem C11_regular_grid_accepted : forall st S T V,
   reachable st -> well_typed st -> grid_complete (cfg_time st) (cfg_vec st) (files st) S T V ->
@@ -182,6 +190,23 @@ Proof.
   split; [apply ex_reach|]. split; [vm_compute; reflexivity|]. split; [vm_compute; reflexivity|].
   split; [vm_compute; left; reflexivity|]. split; [vm_compute; do 6 right; left; reflexivity|].
   split; [vm_compute; reflexivity|]. split; vm_compute; reflexivity.
+Qed.
+
+(** two vector values on 2 + 1 volumes of 2 slices: 6 files (a multiple of 2), 3 volumes (not a multiple of 2) *)
+Definition ex_uvol : state :=
+  run (init true true)
+      [OAdd (fl 0 0 (Some 1%Q) (Some 1%Q) 10); OAdd (fl 1 1 (Some 1%Q) (Some 1%Q) 10);
+       OAdd (fl 2 0 (Some 2%Q) (Some 1%Q) 10); OAdd (fl 3 1 (Some 2%Q) (Some 1%Q) 10);
+       OAdd (fl 4 0 (Some 1%Q) (Some 2%Q) 10); OAdd (fl 5 1 (Some 1%Q) (Some 2%Q) 10)].
+
+Example C11_volumes_ex :
+  reachable ex_uvol /\ well_typed ex_uvol /\ length (files ex_uvol) mod 2 = 0 /\
+  (length (files ex_uvol) / length (dedup qc_eqb (map f_pos (files ex_uvol))))
+    mod length (dedup oq_eqb (map (base_vec (cfg_vec ex_uvol)) (files ex_uvol))) = 1 /\
+  snd (get_shape ex_uvol) = Err EInvalidStack.
+Proof.
+  split; [apply ex_reach|]. split; [vm_compute; reflexivity|]. split; [vm_compute; reflexivity|].
+  split; vm_compute; reflexivity.
 Qed.
 
 Example C11_accept_ex :
